@@ -8,6 +8,9 @@ forms them (`specsOf`): each a list of samples (wavelength `x`, working inverse 
 `Ends p0 rest`: the first sample is leftmost and the last rightmost (increasing wavelengths).
 -/
 import PydlVerif.Lemmas.Combine
+import PydlVerif.Lemmas.CombineGroups
+import PydlVerif.Model.CombineFit
+import PydlVerif.Props.C09
 import Mathlib.Data.Rat.Floor
 namespace PydlVerif.C11
 open PydlVerif PydlVerif.Interp PydlVerif.Combine
@@ -370,6 +373,224 @@ theorem shiftRow_feature (loglam f : List K) (s L : K) (hpos : ∀ l ∈ loglam,
 
 end shift
 
+/-! ### the grouping by `maxsep` (extension round) -/
+
+section groups
+variable {K : Type} [Field K] [LinearOrder K] [IsStrictOrderedRing K] [FloorRing K]
+attribute [local instance] fieldScalar
+attribute [-instance] Scalar.instOfNat Scalar.instOfScientific
+
+/-- wavelength of the `i`-th sorted good pixel -/
+def wv (x : List K) (isort : List Nat) (i : Nat) : K := x.getD (isort.getD i 0) 0
+
+/-- **the groups are a partition of the sorted good pixels into maximal runs of gaps ≤ maxsep**
+(`maxsep > 0`, at least one good pixel; NO sortedness needed - the statement is about neighbours in the order
+`isort`): `groupsOf` does not raise; its groups are the slices `isort[s : e+1]` of cut positions `(s, e)` that tile
+`0 .. ngood-1` (each cut starts right after the previous one, so every good pixel lies in exactly one group and the
+groups, concatenated, are `isort` again); inside a group neighbours are at most `maxsep` apart; the gap in front
+of every group but the first, and behind every group but the last, is larger than `maxsep` -/
+theorem groups_partition (x : List K) (isort : List Nat) (maxsep : K) (hm : 0 < maxsep) (hne : isort ≠ []) :
+    ∃ cuts : List (Nat × Nat),
+      groupsOf x isort maxsep = .ok (cuts.map (piece isort)) ∧
+      (cuts.map (piece isort)).flatten = isort ∧
+      Tiles 0 cuts isort.length ∧
+      ∀ p ∈ cuts, p.1 ≤ p.2 ∧ p.2 < isort.length ∧
+        (∀ i, p.1 ≤ i → i < p.2 → wv x isort (i + 1) - wv x isort i ≤ maxsep) ∧
+        (p.1 = 0 ∨ maxsep < wv x isort p.1 - wv x isort (p.1 - 1)) ∧
+        (p.2 + 1 = isort.length ∨ maxsep < wv x isort (p.2 + 1) - wv x isort p.2) := by
+  obtain ⟨i0, ir, rfl⟩ := List.exists_cons_of_ne_nil hne
+  set w0 := x.getD i0 0 with hw0
+  set ws := ir.map (fun i => x.getD i 0) with hws
+  have hlen : ws.length = ir.length := by simp [hws]
+  set n := ir.length with hn
+  set pad := padwave w0 ws maxsep with hpad
+  -- the gap flags
+  let g : Nat → Bool := fun i => decide (maxsep < pad.getD (i + 1) 0 - pad.getD i 0)
+  have hW : ∀ i, i < n + 1 → (w0 :: ws).getD i 0 = wv x (i0 :: ir) i := by
+    intro i hi
+    unfold wv
+    cases i with
+    | zero => rfl
+    | succ j =>
+      have hj : j < ir.length := by omega
+      simp only [hws, List.getD_eq_getElem?_getD, List.getElem?_cons_succ, List.getElem?_map,
+        List.getElem?_eq_getElem hj, Option.map_some, Option.getD_some]
+  have hmid : ∀ i, i < n + 1 → pad.getD (i + 1) 0 = wv x (i0 :: ir) i := by
+    intro i hi
+    rw [hpad, pad_get_mid _ _ _ _ _ (by omega), hW i hi]
+  have hgt : ∀ i, g i = true → maxsep < pad.getD (i + 1) 0 - pad.getD i 0 := fun i h => of_decide_eq_true h
+  have hgf : ∀ i, g i = false → pad.getD (i + 1) 0 - pad.getD i 0 ≤ maxsep := fun i h => not_lt.1 (of_decide_eq_false h)
+  have hg0 : g 0 = true := by
+    apply decide_eq_true
+    rw [hmid 0 (by omega), hpad, pad_get_zero, ← hW 0 (by omega)]
+    have := lmin_le_init w0 ws
+    simp only [List.getD_cons_zero]
+    linarith
+  have hgn : g (n + 1) = true := by
+    apply decide_eq_true
+    rw [hmid n (by omega), hpad]
+    have e : n + 1 + 1 = ws.length + 1 + 1 := by omega
+    rw [e, pad_get_last, ← hW n (by omega)]
+    have hl : (w0 :: ws).getD n 0 ≤ lmax w0 ws := by
+      cases hnn : n with
+      | zero => simpa using lmax_ge_init w0 ws
+      | succ j =>
+        have hj : j < ws.length := by omega
+        rw [List.getD_cons_succ, List.getD_eq_getElem?_getD, List.getElem?_eq_getElem hj, Option.getD_some]
+        exact lmax_ge_mem w0 ws _ (List.getElem_mem hj)
+    linarith
+  have hcut := cuts_tiles g n 0 0 (le_refl _) (by simpa using hgn)
+  have ha : ig1 pad (i0 :: ir).length maxsep = 0 :: (List.range' (0 + 1) n).filter g := by
+    unfold ig1
+    simp only [scalar_lit, Nat.cast_zero]
+    show List.filter g (List.range (n + 1)) = _
+    rw [List.range_eq_range', List.range'_succ, List.filter_cons, hg0]
+    rfl
+  have hb : ig2 pad (i0 :: ir).length maxsep = (List.range' 0 (n + 1)).filter (fun i => g (i + 1)) := by
+    unfold ig2
+    simp only [scalar_lit, Nat.cast_zero]
+    show List.filter (fun i => g (i + 1)) (List.range (n + 1)) = _
+    rw [List.range_eq_range']
+  obtain ⟨hl, ht, hc⟩ := hcut
+  refine ⟨(0 :: (List.range' (0 + 1) n).filter g).zip ((List.range' 0 (n + 1)).filter (fun i => g (i + 1))), ?_, ?_, ?_, ?_⟩
+  · have hgo : groupsOf x (i0 :: ir) maxsep =
+        if (ig1 pad (i0 :: ir).length maxsep).length ≠ (ig2 pad (i0 :: ir).length maxsep).length then .error "ValueError"
+        else .ok (List.zipWith (fun s e => ((i0 :: ir).drop s).take (e + 1 - s)) (ig1 pad (i0 :: ir).length maxsep)
+          (ig2 pad (i0 :: ir).length maxsep)) := by
+      unfold groupsOf
+      simp only [List.map_cons, scalar_lit, Nat.cast_zero]
+      rfl
+    rw [hgo, ha, hb]
+    simp only [hl, ne_eq, not_true_eq_false, if_false]
+    congr 1
+    rw [List.zip, List.map_zipWith]
+    rfl
+  · have := tiles_flatten (i0 :: ir) _ _ _ ht
+    rw [this]
+    simp only [Nat.sub_zero, List.drop_zero]
+    apply List.take_of_length_le
+    simp only [List.length_cons]; omega
+  · simpa using ht
+  · intro p hp
+    obtain ⟨a1, a2, a3, a4, a5⟩ := hc p hp
+    have hp2 : p.2 < n + 1 := by
+      have := (List.of_mem_zip hp).2
+      simp only [List.mem_filter, List.mem_range'_1] at this
+      omega
+    have hp1 : p.1 ≤ p.2 := by
+      -- from the tiling
+      have : ∀ (cuts : List (Nat × Nat)) (s N : Nat), Tiles s cuts N → ∀ q ∈ cuts, q.1 ≤ q.2 := by
+        intro cuts
+        induction cuts with
+        | nil => intro s N _ q hq; cases hq
+        | cons c r ih =>
+          intro s N h q hq
+          rcases List.mem_cons.1 hq with rfl | hq
+          · exact h.2.1
+          · exact ih _ _ h.2.2 q hq
+      exact this _ _ _ ht p hp
+    refine ⟨hp1, by simpa using hp2, ?_, ?_, ?_⟩
+    · intro i h1 h2
+      have := hgf _ (a5 i h1 (Nat.zero_le _) h2)
+      rw [hmid (i + 1) (by omega), hmid i (by omega)] at this
+      exact this
+    · rcases a4 with h | h
+      · left; exact h
+      · by_cases h0 : p.1 = 0
+        · left; exact h0
+        · right
+          obtain ⟨j, hj⟩ := Nat.exists_eq_succ_of_ne_zero h0
+          rw [hj] at h ⊢
+          have h := hgt _ h
+          rw [hmid (j + 1) (by omega), hmid j (by omega)] at h
+          simpa using h
+    · by_cases hlast : p.2 + 1 = (i0 :: ir).length
+      · left; exact hlast
+      · right
+        have h := hgt _ a3
+        have hlt : p.2 + 1 < n + 1 := by
+          simp only [List.length_cons] at hlast; omega
+        rw [hmid (p.2 + 1) hlt, hmid p.2 (by omega)] at h
+        exact h
+
+end groups
+
+/-! ### preprocess_spectra: every object is de-redshifted by its own shift (extension round) -/
+
+section preprocess
+variable {K : Type} [Field K] [LinearOrder K] [IsStrictOrderedRing K] [FloorRing K]
+attribute [local instance] fieldScalar
+attribute [-instance] Scalar.instOfNat Scalar.instOfScientific
+
+theorem mapM_ok {β γ : Type} (f : β → Except String γ) : ∀ (l : List β) (outs : List γ), l.mapM f = .ok outs →
+    outs.length = l.length ∧ ∀ k (hk : k < l.length) (hk' : k < outs.length), f l[k] = .ok outs[k] := by
+  intro l
+  induction l with
+  | nil =>
+    intro outs h
+    simp only [List.mapM_nil, pure, Except.pure, Except.ok.injEq] at h
+    subst h
+    exact ⟨rfl, fun k hk => absurd hk (by simp)⟩
+  | cons b l ih =>
+    intro outs h
+    simp only [List.mapM_cons, bind, Except.bind, pure, Except.pure] at h
+    split at h
+    · cases h
+    · rename_i o ho
+      split at h
+      · cases h
+      · rename_i os hos
+        simp only [Except.ok.injEq] at h
+        subst h
+        obtain ⟨hl, hk⟩ := ih os hos
+        refine ⟨by simp [hl], ?_⟩
+        intro k hk1 hk2
+        cases k with
+        | zero => simpa using ho
+        | succ j =>
+          simp only [List.getElem_cons_succ]
+          exact hk j (by simpa using hk1) (by simpa using hk2)
+
+theorem preprocessInput_x (loglam logshift : List K) (flux ivar : List (List K)) (newx : List K) (m : Method) (k : Nat) :
+    (preprocessInput loglam logshift flux ivar newx m k).x = shiftRow loglam (logshift.getD k 0) := by
+  simp only [preprocessInput, scalar_lit, Nat.cast_zero]
+
+/-- **index bookkeeping of the loop over the objects**: when `preprocess_spectra` returns, it returns one (flux, ivar) row
+per object, and row `k` is what `combine1fiber` answers for the arguments of object `k` - whose wavelengths are
+`loglam[loglam > 0] - logshift[k]`, flux `flux[k, loglam > 0]`, inverse variance `ivar[k, loglam > 0]`: object `k` is shifted
+by ITS OWN `log10(1+z_k)`, whatever the other objects are (dead fibres included: they are ordinary calls) -/
+theorem preprocess_object (c1f : Input K → Combine.R (List K × List K)) (loglam logshift : List K)
+    (flux ivar : List (List K)) (newx : List K) (m : Method) (outs : List (List K × List K))
+    (h : preprocessSpectra c1f loglam logshift flux ivar newx m = .ok outs) :
+    outs.length = flux.length ∧
+    ∀ k (hk : k < flux.length) (hk' : k < outs.length),
+      c1f (preprocessInput loglam logshift flux ivar newx m k) = .ok outs[k] ∧
+      (preprocessInput loglam logshift flux ivar newx m k).x = shiftRow loglam (logshift.getD k 0) ∧
+      (preprocessInput loglam logshift flux ivar newx m k).flux = pickRow loglam (flux.getD k []) ∧
+      (preprocessInput loglam logshift flux ivar newx m k).ivar = some (pickRow loglam (ivar.getD k [])) ∧
+      (preprocessInput loglam logshift flux ivar newx m k).newx = newx := by
+  unfold preprocessSpectra at h
+  split at h
+  · cases h
+  · obtain ⟨hl, hk⟩ := mapM_ok _ _ _ h
+    simp only [List.length_range] at hl hk
+    refine ⟨hl, fun k hk1 hk2 => ⟨?_, preprocessInput_x _ _ _ _ _ _ _, rfl, rfl, rfl⟩⟩
+    have := hk k hk1 hk2
+    simpa using this
+
+/-- **de-redshift, every object**: for every object `k`, linear interpolation of any per-pixel quantity `f` on the
+wavelengths handed to `combine1fiber` for that object, at `L - logshift[k]`, equals its interpolation on the observed
+wavelengths at `L` (all `loglam > 0`): a feature observed at `L` is presented at `L - log10(1+z_k)` - `shiftRow_feature`
+for the argument of call `k` -/
+theorem preprocess_feature (loglam logshift : List K) (flux ivar : List (List K)) (newx : List K) (m : Method)
+    (k : Nat) (f : List K) (L : K) (hpos : ∀ l ∈ loglam, 0 < l) :
+    interpL ((preprocessInput loglam logshift flux ivar newx m k).x.zip f) (L - logshift.getD k 0) =
+      interpL (loglam.zip f) L := by
+  rw [preprocessInput_x]
+  exact shiftRow_feature loglam f (logshift.getD k 0) L hpos
+
+end preprocess
+
 /-! ### the scaling law of the inverse variance -/
 
 section scale
@@ -520,6 +741,134 @@ theorem combine_length (fit : Nat → K → List K → List K → Option (List K
        rw [groupLoop_flux_length _ _ _ _ _ _ _ _ hst]; simp; done)
     | cases h
 
+/-- lengths: the FLUX returned by `finish` has the grid's length when `newflux` has it (through the scrub and every
+branch of `aesthetics`, including `'damp'`) -/
+theorem finish_flux_length (mean : List K → K) (erf : K → K) (classify : K → Val K)
+    (oneD : Bool) (nspec ncol : Nat) (x newx : List K) (m : Method) (st : St K) (f v : List K)
+    (hfl : st.flux.length = newx.length)
+    (h : finish mean erf classify oneD nspec ncol x newx m st = .ok (f, v)) :
+    f.length = newx.length := by
+  have h2 := (finish_ok mean erf classify oneD nspec ncol x newx m st f v h).2
+  rw [aesthIf_length mean erf _ _ m f (by simp) h2]
+  simp [finishPairs, scrub_length, growBad_length, rawIvar, hfl]
+
+/-- **length, both outputs**: whenever `combine1fiber` returns, flux and inverse variance have the output grid's
+length (any fit, any argsort, any kernels, every aesthetics method) -/
+theorem combine_flux_length (fit : Nat → K → List K → List K → Option (List K) → Combine.R (Fit K))
+    (argsort : List K → List Nat) (med mean : List K → K) (erf : K → K) (classify : K → Val K)
+    (inp : Input K) (f v : List K)
+    (h : combine1fiber fit argsort med mean erf classify inp = .ok (f, v)) :
+    f.length = inp.newx.length ∧ v.length = inp.newx.length := by
+  refine ⟨?_, combine_length fit argsort med mean erf classify inp f v h⟩
+  unfold combine1fiber at h
+  simp only [bind, Except.bind, pure, Except.pure] at h
+  repeat' split at h
+  all_goals first
+    | (cases h; simp; done)
+    | (rename_i st hst
+       refine finish_flux_length _ _ _ _ _ _ _ _ _ _ _ _ ?_ h
+       rw [groupLoop_flux_length _ _ _ _ _ _ _ _ hst]; simp; done)
+    | cases h
+
+/-! ### `fullcombmask` stays False outside the groups (extension round) -/
+
+theorem scatter_getD_not_mem {β : Type} (arr : List β) (idx : List Nat) (vals : List β) (i : Nat) (d : β)
+    (hi : i ∉ idx) : (scatter arr idx vals).getD i d = arr.getD i d := by
+  unfold scatter
+  have : ∀ (l : List (Nat × β)) (arr : List β), (∀ q ∈ l, q.1 ≠ i) →
+      (l.foldl (fun a (iv : Nat × β) => a.set iv.1 iv.2) arr).getD i d = arr.getD i d := by
+    intro l
+    induction l with
+    | nil => intro arr _; rfl
+    | cons q l ih =>
+      intro arr hq
+      simp only [List.foldl_cons]
+      rw [ih _ (fun q' hq' => hq q' (List.mem_cons_of_mem _ hq'))]
+      simp only [List.getD_eq_getElem?_getD]
+      rw [List.getElem?_set_ne (hq q List.mem_cons_self)]
+  apply this
+  intro q hq hqi
+  exact hi (hqi ▸ (List.of_mem_zip hq).1)
+
+/-- one pass of the group loop changes `fullcombmask` only at the pixels of its group -/
+theorem groupStep_fcm_outside (fit : Nat → K → List K → List K → Option (List K) → Combine.R (Fit K))
+    (bk : K) (x y newx : List K) (st st' : St K) (k : Nat) (ss : List Nat) (i : Nat) (hi : i ∉ ss)
+    (h : groupStep fit bk x y newx st k ss = .ok st') : st'.fcm.getD i false = st.fcm.getD i false := by
+  unfold groupStep at h
+  simp only [bind, Except.bind, pure, Except.pure] at h
+  repeat' split at h
+  all_goals first
+    | (cases h; simp only [scatter_getD_not_mem _ _ _ _ _ hi]; done)
+    | cases h
+
+theorem groupLoop_fcm_outside (fit : Nat → K → List K → List K → Option (List K) → Combine.R (Fit K))
+    (bk : K) (x y newx : List K) (st st' : St K) (groups : List (List Nat)) (i : Nat)
+    (hi : ∀ g ∈ groups, i ∉ g)
+    (h : groupLoop fit bk x y newx st groups = .ok st') : st'.fcm.getD i false = st.fcm.getD i false := by
+  unfold groupLoop at h
+  have hstep : ∀ (l : List Nat) (s s' : St K), (∀ k ∈ l, i ∉ groups.getD k []) →
+      l.foldlM (fun st k => groupStep fit bk x y newx st k (groups.getD k [])) s = .ok s' →
+      s'.fcm.getD i false = s.fcm.getD i false := by
+    intro l
+    induction l with
+    | nil => intro s s' _ h; simp only [List.foldlM_nil, pure, Except.pure, Except.ok.injEq] at h; rw [h]
+    | cons b l ih =>
+      intro s s' hk h
+      simp only [List.foldlM_cons, bind, Except.bind] at h
+      split at h
+      · cases h
+      · rename_i s1 hs1
+        rw [ih s1 s' (fun k hk' => hk k (List.mem_cons_of_mem _ hk')) h]
+        exact groupStep_fcm_outside fit bk x y newx s s1 b _ i (hk b List.mem_cons_self) hs1
+  apply hstep _ st st' _ h
+  intro k hk
+  by_cases hkl : k < groups.length
+  · rw [List.getD_eq_getElem?_getD, List.getElem?_eq_getElem hkl, Option.getD_some]
+    exact hi _ (List.getElem_mem hkl)
+  · rw [List.getD_eq_getElem?_getD, List.getElem?_eq_none (not_lt.1 hkl), Option.getD_none]
+    simp
+
+/-- the pixels of every group are pixels of `isort` (whatever `maxsep`) -/
+theorem groupsOf_mem (x : List K) (isort : List Nat) (maxsep : K) (groups : List (List Nat))
+    (h : groupsOf x isort maxsep = .ok groups) : ∀ g ∈ groups, ∀ i ∈ g, i ∈ isort := by
+  unfold groupsOf at h
+  split at h
+  · cases h
+  · simp only at h
+    split at h
+    · cases h
+    · simp only [Except.ok.injEq] at h
+      subst h
+      intro g hg i hi
+      rw [List.zipWith_eq_zipWith_take_min] at hg
+      obtain ⟨k, hk, rfl⟩ := List.getElem_of_mem hg
+      simp only [List.getElem_zipWith] at hi
+      exact List.mem_of_mem_drop (List.mem_of_mem_take hi)
+
+/-- **a pixel whose inverse variance is not positive is never kept** (`fullcombmask` False), for ANY fit: such a pixel is
+not among the `nonzero` pixels, hence in no group, and the group loop writes `fullcombmask` only at group pixels.
+(With the modelled `iterfit` the pixels inside a group all have positive weight when they are handed over; C10
+`nonpositive_never_used` covers weights that are not.)  `perm` only has to address existing entries of `nonzero`. -/
+theorem fcm_false_nonpositive (fit : Nat → K → List K → List K → Option (List K) → Combine.R (Fit K))
+    (bk : K) (x y newx iv : List K) (perm : List Nat) (maxsep : K) (groups : List (List Nat)) (st st' : St K)
+    (npix : Nat)
+    (hperm : ∀ p ∈ perm, p < ((List.range npix).filter fun i => decide (iv.getD i 0 > 0)).length)
+    (hg : groupsOf x (perm.map fun p => ((List.range npix).filter fun i => decide (iv.getD i 0 > 0)).getD p 0) maxsep = .ok groups)
+    (hloop : groupLoop fit bk x y newx st groups = .ok st')
+    (i : Nat) (hi : ¬ iv.getD i 0 > 0) : st'.fcm.getD i false = st.fcm.getD i false := by
+  apply groupLoop_fcm_outside fit bk x y newx st st' groups i _ hloop
+  intro g hgm him
+  have := groupsOf_mem x _ maxsep groups hg g hgm i him
+  obtain ⟨p, hp, rfl⟩ := List.mem_map.1 this
+  have hlt := hperm p hp
+  have e : ((List.range npix).filter fun i => decide (iv.getD i 0 > 0)).getD p 0 =
+      ((List.range npix).filter fun i => decide (iv.getD i 0 > 0))[p] := by
+    rw [List.getD_eq_getElem?_getD, List.getElem?_eq_getElem hlt, Option.getD_some]
+  rw [e] at hi
+  have hm := List.getElem_mem hlt
+  simp only [List.mem_filter, decide_eq_true_eq] at hm
+  exact hi hm.2
+
 theorem scatter_mem {β : Type} (arr : List β) (idx : List Nat) (vals : List β) :
     ∀ v ∈ scatter arr idx vals, v ∈ arr ∨ v ∈ vals := by
   unfold scatter
@@ -580,6 +929,119 @@ theorem const_flux_const_partial (fit : Nat → K → List K → List K → Opti
 
 end loop
 
+/-! ### the spline fit behind the `fit` parameter: scaling and constants from C09 (extension round) -/
+
+section wls
+open Finset
+variable {K : Type} [Field K] [LinearOrder K] [IsStrictOrderedRing K]
+
+/-- **the weighted least-squares optimum is equivariant under `(y, w) ↦ (c·y, w/c²)`** (from the normal equations): if `s`
+solves the normal equations of `(A, w, y)` then `c·s` solves those of `(A, w/c², c·y)`, `c ≠ 0` -/
+theorem wls_scale_normal {m n : ℕ} (A : Fin m → Fin n → K) (w y : Fin m → K) (s : Fin n → K) (c : K) (hc : c ≠ 0)
+    (hN : Lsq.Normal A w y s) : Lsq.Normal A (fun i => w i / c ^ 2) (fun i => c * y i) (fun j => c * s j) := by
+  intro k
+  have e : ∀ i, w i / c ^ 2 * A i k * (c * y i - ∑ j, A i j * (c * s j))
+      = (1 / c) * (w i * A i k * (y i - ∑ j, A i j * s j)) := by
+    intro i
+    have : ∑ j, A i j * (c * s j) = c * ∑ j, A i j * s j := by
+      rw [Finset.mul_sum]; apply Finset.sum_congr rfl; intros; ring
+    rw [this]; field_simp
+  simp_rw [e]
+  rw [← Finset.mul_sum, hN k, mul_zero]
+
+/-- … hence it minimises the scaled objective (weights ≥ 0), and where the optimum is unique (positive definite normal
+matrix) the fit of the scaled data IS `c` times the fit of the original data -/
+theorem wls_scale_optimum {m n : ℕ} (A : Fin m → Fin n → K) (w y : Fin m → K) (s z : Fin n → K) (c : K) (hc : c ≠ 0)
+    (hw : ∀ i, 0 ≤ w i) (hN : Lsq.Normal A w y s) :
+    Lsq.Q A (fun i => w i / c ^ 2) (fun i => c * y i) (fun j => c * s j) ≤
+      Lsq.Q A (fun i => w i / c ^ 2) (fun i => c * y i) z :=
+  Lsq.lsq_optimum A _ _ _ z (fun i => div_nonneg (hw i) (sq_nonneg c)) (wls_scale_normal A w y s c hc hN)
+
+theorem wls_scale_unique {m n : ℕ} (A : Fin m → Fin n → K) (w y : Fin m → K) (s s' : Fin n → K) (c : K) (hc : c ≠ 0)
+    (hpd : ∀ d : Fin n → K, (∑ i, w i * (∑ j, A i j * d j) ^ 2 = 0) → d = 0)
+    (hN : Lsq.Normal A w y s) (hN' : Lsq.Normal A (fun i => w i / c ^ 2) (fun i => c * y i) s') :
+    s' = fun j => c * s j := by
+  refine Lsq.lsq_unique A _ _ s' _ ?_ hN' (wls_scale_normal A w y s c hc hN)
+  intro d hd
+  apply hpd d
+  have e : ∑ i, w i / c ^ 2 * (∑ j, A i j * d j) ^ 2 = (1 / c ^ 2) * ∑ i, w i * (∑ j, A i j * d j) ^ 2 := by
+    rw [Finset.mul_sum]; apply Finset.sum_congr rfl; intros; ring
+  rw [e] at hd
+  rcases mul_eq_zero.1 hd with h | h
+  · exact absurd h (one_div_ne_zero (pow_ne_zero 2 hc))
+  · exact h
+
+/-- **constant data, unique optimum ⇒ all coefficients equal the constant, so the curve is the constant EVERYWHERE**
+(not only at the data points): rows of the design matrix sum to 1 (C08 `bsplvn_sum_one`), `y = c` wherever the weight is not
+0, `s` solves the normal equations, the normal matrix is positive definite ⇒ `s ≡ c`, and any basis row `b` with `Σ b = 1`
+(the B-spline values at ANY abscissa in the breakpoint range, e.g. an output pixel) gives `Σ b_j s_j = c` -/
+theorem const_fit_everywhere {m n : ℕ} (A : Fin m → Fin n → K) (w y : Fin m → K) (s : Fin n → K) (c : K)
+    (hrow : ∀ i, ∑ j, A i j = 1) (hy : ∀ i, w i ≠ 0 → y i = c)
+    (hpd : ∀ d : Fin n → K, (∑ i, w i * (∑ j, A i j * d j) ^ 2 = 0) → d = 0)
+    (hN : Lsq.Normal A w y s) :
+    s = (fun _ => c) ∧ ∀ b : Fin n → K, ∑ j, b j = 1 → ∑ j, b j * s j = c := by
+  have h1 : Lsq.Normal A w (fun i => ∑ j, A i j * (fun _ => c) j) (fun _ => c) := Lsq.normal_exact A w (fun _ => c)
+  have h2 : Lsq.Normal A w (fun _ => c) (fun _ => c) := by
+    have : (fun i => ∑ j, A i j * (fun _ : Fin n => c) j) = fun _ => c := by
+      funext i; rw [← Finset.sum_mul, hrow i, one_mul]
+    rw [this] at h1; exact h1
+  have h3 : Lsq.Normal A w y (fun _ => c) :=
+    Lsq.normal_zero_weight A w (fun _ => c) y _ (fun i hi => (hy i hi).symm) h2
+  have hs := Lsq.lsq_unique A w y s _ hpd hN h3
+  refine ⟨hs, fun b hb => ?_⟩
+  rw [hs, ← Finset.sum_mul, hb, one_mul]
+
+end wls
+
+section c09
+open Finset PydlVerif.BSpline PydlVerif.BSplineFit PydlVerif.BSplineFitLemmas PydlVerif.C09
+variable {K : Type} [Field K] [LinearOrder K] [IsStrictOrderedRing K] [FloorRing K]
+local notation "assembleK" => @assemble _ (fieldScalar _)
+local notation "splineAtK" => @splineAt _ (fieldScalar _)
+local notation "fitK" => @BSplineFit.fit _ (fieldScalar _)
+local notation "gbK" => @BS.gb _ (fieldScalar _)
+local notation "knotAtK" => @knotAt _ (fieldScalar _)
+local notation "normalSystemK" => @normalSystem _ (fieldScalar _)
+local notation "choleskyBandK" => @choleskyBand _ (fieldScalar _)
+local notation "choleskySolveK" => @choleskySolve _ (fieldScalar _)
+local notation "coeffAtK" => @C08.coeffAt _ (fieldScalar _)
+/-- the `Inhabited` instance the model's `arr[i]!` reads use (default `Scalar.ofNat 0`), as in Props/C09 -/
+noncomputable local instance instInhabitedK11 : Inhabited K := @PydlVerif.instInhabitedOfScalar K (fieldScalar K)
+
+/-- **constant spectrum, status-0 fit: the fitted curve is the constant at every pixel of positive weight** - no contract
+hypothesis on the fit: C09 `fit_reproduces_poly` (⇐ `poly_reproduction_all`) at degree 0, about the object that the model
+function `fit` (the one inside the modelled `iterfit` of `fitFull`) returns.  Hypotheses = those of `fit_reproduces_poly`
+(`hsolve`: the LAPACK contract, by design a hypothesis).  For pixels that are not data points see `const_fit_everywhere`. -/
+theorem const_fit_data (Kn : Kernels K) (b : BS K) (xs ys ws : List K) (perm : List ℕ) (out : FitOut K)
+    (h : fitK Kn b xs ys ws perm = .ok out) (h0 : out.status = 0)
+    (hk : 1 ≤ b.nord) (hsize : 2 * b.nord ≤ (gbK b).size)
+    (hnn : (goodIdx (b.mask.toList.drop b.nord)).length = (gbK b).size - b.nord)
+    (hcs : b.mask.size - b.nord ≤ b.coeff.size)
+    (hne : xs ≠ []) (hsorted : xs.Pairwise (· ≤ ·)) (hyl : ys.length = xs.length) (hwl : ws.length = xs.length)
+    (hw : ∀ v ∈ ws, 0 ≤ v)
+    (hsolve : ∀ rows lower upper mininf a, (@BS.action _ (fieldScalar _) b xs) = .ok (some (rows, lower, upper)) →
+      choleskyBandK Kn (normalSystemK rows ys ws lower upper xs.length b.nord ((gbK b).size - b.nord)).1 mininf
+        = .ok (.factor a) →
+      ∀ c, c < (gbK b).size - b.nord → ∑ c' ∈ range ((gbK b).size - b.nord),
+        bandFull (assembleK (fun p a => ((rows.map List.toArray).toArray[p]!)[a]!) (fun p => ys.toArray[p]!)
+            (fun p => ws.toArray[p]!) lower upper xs.length b.nord ((gbK b).size - b.nord - b.nord + 1)).1 b.nord c c'
+          * (choleskySolveK Kn a (normalSystemK rows ys ws lower upper xs.length b.nord ((gbK b).size - b.nord)).2)[c']!
+        = (assembleK (fun p a => ((rows.map List.toArray).toArray[p]!)[a]!) (fun p => ys.toArray[p]!)
+            (fun p => ws.toArray[p]!) lower upper xs.length b.nord ((gbK b).size - b.nord - b.nord + 1)).2 c)
+    (hmono : ∀ a c, a ≤ c → c ≤ (gbK b).size - 1 → knotAtK (gbK b) a ≤ knotAtK (gbK b) c)
+    (hfirst : knotAtK (gbK b) (b.nord - 1) < knotAtK (gbK b) b.nord)
+    (hrange : ∀ v ∈ xs, knotAtK (gbK b) (b.nord - 1) ≤ v ∧ v ≤ knotAtK (gbK b) ((gbK b).size - b.nord))
+    (cst : K) (hy : ∀ p, p < xs.length → ys.getD p 0 = cst) :
+    ∀ p, p < xs.length → 0 < ws.getD p 0 →
+      splineAtK (knotAtK (gbK out.obj)) (coeffAtK out.obj) out.obj.nord ((gbK out.obj).size - out.obj.nord) (xs.getD p 0)
+        = cst := by
+  intro p hp hpos
+  have := fit_reproduces_poly Kn b xs ys ws perm out h h0 hk hsize hnn hcs hne hsorted hyl hwl hw hsolve hmono hfirst hrange
+    (Polynomial.C cst) (by rw [Polynomial.natDegree_C]; omega) (fun q hq => by rw [hy q hq, Polynomial.eval_C]) p hp hpos
+  rw [this, Polynomial.eval_C]
+
+end c09
+
 /-! ### non-vacuity -/
 
 section examples
@@ -605,5 +1067,27 @@ example : Ends (K := ℚ) ⟨0, 2, true⟩ [⟨1, 4, true⟩, ⟨2, 6, false⟩]
   · norm_num [lerp]
 
 end examples
+
+section examples2
+open Finset
+attribute [-instance] Scalar.instOfNat Scalar.instOfScientific
+/-- the hypotheses of `const_fit_everywhere` / `wls_scale_unique` are satisfiable: one point, one coefficient, weight 1 -/
+example : (∀ i : Fin 1, ∑ j : Fin 1, (fun _ _ => (1 : ℚ)) i j = 1) ∧
+    (∀ d : Fin 1 → ℚ, (∑ i : Fin 1, (1 : ℚ) * (∑ j : Fin 1, (1 : ℚ) * d j) ^ 2 = 0) → d = 0) ∧
+    Lsq.Normal (fun (_ : Fin 1) (_ : Fin 1) => (1 : ℚ)) (fun _ => 1) (fun _ => 7) (fun _ => 7) := by
+  refine ⟨fun i => by rw [Finset.univ_unique, Finset.sum_singleton], ?_, fun k => ?_⟩
+  rotate_left
+  · show ∑ i : Fin 1, (1 : ℚ) * 1 * (7 - ∑ j : Fin 1, (1 : ℚ) * 7) = 0
+    rw [Finset.univ_unique, Finset.sum_singleton, Finset.sum_singleton]; norm_num
+  intro d h
+  simp only [Finset.univ_unique, Finset.sum_singleton, one_mul, pow_eq_zero_iff (two_ne_zero)] at h
+  funext j
+  rw [Subsingleton.elim j default]
+  exact h
+
+/-- the hypotheses of `groups_partition`: three good pixels, the last one far away - two groups -/
+example : (0 : ℚ) < 2 ∧ ([0, 1, 2] : List Nat) ≠ [] := ⟨by norm_num, by simp⟩
+
+end examples2
 
 end PydlVerif.C11
